@@ -59,16 +59,23 @@ def main(argv=None):
         except rsx.LostAnchor as e:
             undecided.append(f"lost anchor: {e}")
         if unit is not None:
+            for e in unit.build_errors:
+                undecided.append(f"lost anchor: {e}")
             # ------------------------------------------------------------ Verus
+            todo = []
             for vf in unit.verus:
                 if getattr(vf, "tier", "quick") == "thorough" and tier != "thorough":
                     continue
                 path = os.path.join(scratch, "verus", vf.name + ".rs")
                 vrun.assemble(vf.sections, path, vf.prelude)
-                r = vrun.run(path, vf.sections, rlimit=vf.rlimit)
+                todo.append((vf, path))
+            from concurrent.futures import ThreadPoolExecutor
+            nthreads = 3 if len(todo) > 2 else 8
+            with ThreadPoolExecutor(max_workers=5) as ex:
+                results = list(ex.map(lambda vp: vrun.run(vp[1], vp[0].sections, rlimit=vp[0].rlimit, threads=nthreads), todo))
+            for (vf, path), r in zip(todo, results):
                 r.expect_fail = vf.expect_fail
                 r.name = vf.name
-                r.fn_breakdown = _fn_breakdown(path, vf, r)
                 verus_results.append(r)
                 if vf.expect_fail:
                     _check_canaries(vf, r, path, undecided)
@@ -112,6 +119,7 @@ def main(argv=None):
                     failed_pair = [p for p in pair_res if p is not None and p.status == "failed"]
                     all_ok = pair and all(p is not None and p.status == "success" for p in pair_res) and \
                         all(_hkind(unit, n) == "complete" for n in pair)
+                    hints_missing = bool(getattr(sec, "missing_hints", None)) if sec is not None else False
                     if failed_pair:
                         for p in failed_pair:
                             reported_harness.add(p.name)
@@ -121,6 +129,10 @@ def main(argv=None):
                         undecided.append(
                             f"verus[{r.name}] could not re-prove {sname} ({errs[0]['message']}) but the complete Kani harness(es) "
                             f"{pair} asserting the same contract over the full input domain pass: proof is brittle here, property not refuted")
+                    elif hints_missing:
+                        undecided.append(
+                            f"verus[{r.name}] could not prove {sname} ({errs[0]['message']}), but a proof hint could not be placed in the "
+                            f"changed text ({sec.missing_hints[0][:160]}): proof incomplete, property not refuted")
                     else:
                         violations.append({"obligation": f"verus:{r.name}:{sname}", "origin": errs[0]["origin"],
                                            "verus": errs, "kani": [], "key": f"{sname}"})
@@ -199,11 +211,17 @@ def _check_canaries(vf, r, path, undecided):
     """Every canary fn must fail exactly at its `assert(false)`."""
     src = open(path).read().split("\n")
     canaries = re.findall(r"\bfn (canary_\w+)", "\n".join(src))
+    inline = {m.group(1): k + 1 for k, l in enumerate(src) for m in [re.search(r"// CANARY (\w+)", l)] if m}
+    canaries += [f"inline:{n}" for n in inline]
     bad_lines = 0
     hit = set()
     for e in r.failed:
         ln = e["line"]
         text = src[ln - 1] if 0 < ln <= len(src) else ""
+        mi = re.search(r"// CANARY (\w+)", text)
+        if mi and "assert(false)" in text:
+            hit.add(f"inline:{mi.group(1)}")
+            continue
         if e.get("kind") == "code":
             # a failing code contract is reported from the main file, not from the canary copy
             continue
